@@ -291,7 +291,8 @@ LEVEL_TEXT = ("Proof (checker soundness): C13_local_equations_sound: any table w
               "latest end and span of ALL device activities among its descendants, by induction on the height. The checker is evaluated on every implementation "
               "output; correspondence of all eight stack columns with a hand model (C03's proved builder + linking + backward attachment) after the public "
               "load_traces()."
-              " C13_tree_resolution_independent: times multiplied by k > 0 leave the parent relation (host trees, backward attachment, device children) unchanged.")
+              " C13_tree_resolution_independent: times multiplied by k > 0 leave the parent relation (host trees, backward attachment, device children) unchanged."
+              " C13_kernel_totals_resolution_independent: count unchanged, summed duration and earliest start multiplied by k, latest end multiplied by k or still the sentinel.")
 LEVEL_NOTE = ("Hand model of CallGraph; the theorem is about the checker (translation-validation style), not about the recursive traversals themselves, which are "
               "tied to it per run. Attachment of the autograd thread is covered by the correspondence only.")
 TECHNIQUE = "Coq proof of a checker (local equations => descendant aggregates, induction on height) + differential correspondence via vm_compute"
